@@ -340,12 +340,15 @@ Proof.
   - exact H'.
 Qed.
 
+(* whatever has been visited so far: a sweep that changes no fact and meets no new node ends the loop
+   (since the fix of avail_sweep a sweep from visited = [] sets the flag on every non-empty graph, so the
+   statement for [] alone would only speak of the empty graph) *)
 Theorem stable_sweep_terminates :
-  forall fuel g, (0 < fuel)%nat ->
-    (let '(_, _, ch) := avail_sweep (seq 0 (length g)) g [] false in ch = false) ->
-    exists g', avail_loop fuel g [] = Ok g'.
+  forall fuel g vis, (0 < fuel)%nat ->
+    (let '(_, _, ch) := avail_sweep (seq 0 (length g)) g vis false in ch = false) ->
+    exists g', avail_loop fuel g vis = Ok g'.
 Proof.
-  intros fuel g Hf H. destruct fuel as [|f]; [lia|]. cbn [avail_loop].
-  destruct (avail_sweep (seq 0 (length g)) g [] false) as [[g' v'] ch].
+  intros fuel g vis Hf H. destruct fuel as [|f]; [lia|]. cbn [avail_loop].
+  destruct (avail_sweep (seq 0 (length g)) g vis false) as [[g' v'] ch].
   subst ch. exists g'. reflexivity.
 Qed.
